@@ -29,7 +29,105 @@ class Obligation:
         self.reason = ''
 
     def formula(self):
-        return z3.And(*self.pc, z3.Not(self.goal)) if self.pc else z3.Not(self.goal)
+        pc, goal = resolve_ites(self.pc, self.goal)
+        return z3.And(*pc, z3.Not(goal)) if pc else z3.Not(goal)
+
+
+_ITE_CACHE = {}
+_ARITH_CMP = (z3.Z3_OP_LE, z3.Z3_OP_GE, z3.Z3_OP_LT, z3.Z3_OP_GT)
+
+
+def _ground_ite_conditions(terms, limit=60):
+    """Distinct conditions of if-then-else terms that mention no bound variable."""
+    out, keys = [], set()
+    for t in terms:
+        k = t.get_id()
+        hit = _ITE_CACHE.get(k)
+        if hit is None or not hit[0].eq(t):
+            if len(_ITE_CACHE) > 100000:
+                _ITE_CACHE.clear()
+            hit = (t, _ground_ite_conditions_walk([t], limit))
+            _ITE_CACHE[k] = hit
+        for c in hit[1]:
+            ck = c.get_id()
+            if ck not in keys:
+                keys.add(ck)
+                out.append(c)
+        if len(out) >= limit:
+            break
+    return out[:limit]
+
+
+def _ground_ite_conditions_walk(terms, limit=60):
+    out, seen, stack = [], set(), list(terms)
+    keys = set()
+    while stack and len(out) < limit:
+        t = stack.pop()
+        k = t.get_id()
+        if k in seen:
+            continue
+        seen.add(k)
+        if z3.is_quantifier(t):
+            stack.append(t.body())
+            continue
+        if z3.is_app(t):
+            if t.decl().kind() == z3.Z3_OP_ITE:
+                c = t.arg(0)
+                # index normalisations (`i if i >= 0 else i + n`) are arithmetic comparisons
+                if z3.is_app(c) and c.decl().kind() in _ARITH_CMP and not _has_var(c):
+                    ck = c.get_id()
+                    if ck not in keys:
+                        keys.add(ck)
+                        out.append(c)
+            stack.extend(t.children())
+    return out
+
+
+def _has_var(t):
+    seen, stack = set(), [t]
+    while stack:
+        x = stack.pop()
+        if z3.is_var(x):
+            return True
+        k = x.get_id()
+        if k in seen:
+            continue
+        seen.add(k)
+        if z3.is_quantifier(x):
+            return True
+        stack.extend(x.children())
+    return False
+
+
+def resolve_ites(pc, goal):
+    """Contextual simplification: an if-then-else whose condition is decided by the quantifier-free
+    part of the path condition is replaced by the taken branch (in the quantified facts and the goal
+    too).  Sound: only consequences of the hypotheses are used, and each decided condition is kept
+    as an explicit hypothesis.  This removes the `i if i >= 0 else i + n` index normalisations that
+    otherwise hide syntactically equal terms from quantifier instantiation."""
+    if _os.environ.get('PYVC_NO_ITE_RESOLVE') or not any(has_quantifier(c) for c in list(pc) + [goal]):
+        return list(pc), goal
+    conds = _ground_ite_conditions(list(pc) + [goal])
+    if not conds:
+        return list(pc), goal
+    sv = z3.Solver()
+    sv.set('timeout', 300)
+    for c in pc:
+        if not has_quantifier(c):
+            sv.add(c)
+    subs, facts = [], []
+    for c in conds:
+        if sv.check(z3.Not(c)) == z3.unsat:
+            subs.append((c, z3.BoolVal(True)))
+            facts.append(c)
+        elif sv.check(c) == z3.unsat:
+            subs.append((c, z3.BoolVal(False)))
+            facts.append(z3.Not(c))
+    if not subs:
+        return list(pc), goal
+    new_pc = [z3.simplify(z3.substitute(c, *subs)) for c in pc]
+    new_pc = [c for c in new_pc if not z3.is_true(c)] + facts
+    return new_pc, z3.simplify(z3.substitute(goal, *subs))
 
 
 class PathCtx:
@@ -68,7 +166,23 @@ class PathCtx:
         return r != z3.unsat
 
 
+_HQ_CACHE = {}
+
+
 def has_quantifier(t):
+    # cached per term; the cache holds the term itself, so its id cannot be recycled
+    k = t.get_id()
+    hit = _HQ_CACHE.get(k)
+    if hit is not None and hit[0].eq(t):
+        return hit[1]
+    r = _has_quantifier_walk(t)
+    if len(_HQ_CACHE) > 200000:
+        _HQ_CACHE.clear()
+    _HQ_CACHE[k] = (t, r)
+    return r
+
+
+def _has_quantifier_walk(t):
     seen = set()
     stack = [t]
     while stack:
@@ -94,8 +208,14 @@ class PathResult:
         self.notes = notes or []
 
 
+import os as _os
+TRACE = bool(_os.environ.get('PYVC_TRACE'))
+CUR_LINE = None
+FORKS = {}
+
+
 class Explorer:
-    def __init__(self, timeout_ms=3000, max_paths=4000):
+    def __init__(self, timeout_ms=3000, max_paths=int(_os.environ.get('PYVC_MAX_PATHS', 4000))):
         self.timeout_ms = timeout_ms
         self.max_paths = max_paths
         self.stack = []
@@ -146,6 +266,12 @@ class Explorer:
         ctx.decisions.append(True)
         ctx.alts.append(True)
         ctx.add(s)
+        if TRACE:
+            FORKS[CUR_LINE] = FORKS.get(CUR_LINE, 0) + 1
+            if FORKS[CUR_LINE] == 3:
+                import traceback
+                print('FORK@', CUR_LINE, str(s)[:300])
+                print(''.join(traceback.format_stack(limit=14)[:-1])[-2500:])
         return True
 
     def assume(self, cond):
@@ -177,7 +303,9 @@ class Explorer:
         work = [[]]
         while work:
             prefix = work.pop()
-            if self.paths_explored >= self.max_paths:
+            if self.paths_explored - getattr(self, 'nested_paths', 0) >= self.max_paths:
+                if TRACE:
+                    print('FORKS', sorted(FORKS.items(), key=lambda kv: -kv[1])[:25])
                 raise RuntimeError('path budget exhausted')
             ctx = PathCtx(prefix, base_pc, self.timeout_ms)
             self.stack.append(ctx)
@@ -205,7 +333,10 @@ class Explorer:
         index range of a generic element); obligations raised inside are forwarded to the
         enclosing path."""
         outer = self.ctx
+        before = self.paths_explored
         res = self.explore(thunk, base_pc=list(outer.pc) + list(assume))
+        # sub-computations that were merged back do not multiply the enclosing paths
+        self.nested_paths = getattr(self, 'nested_paths', 0) + (self.paths_explored - before)
         for r in res:
             for ob in r.obligations:
                 outer.obligations.append(ob)
@@ -213,35 +344,118 @@ class Explorer:
 
 
 # ------------------------------------------------------------------------------------
-def solve(ob, timeout_ms=10000, fallback=True):
-    """Discharge one obligation.  unsat -> discharged; sat -> refuted (model kept);
-    unknown -> try the CLI back ends, else undecided."""
-    t0 = time.time()
+def decompose(goal, hyps=(), budget=None):
+    """Split a goal into leaves (extra hypotheses, atomic goal): conjunctions are proved conjunct by
+    conjunct, universal goals are skolemised, implications move their premise to the hypotheses.
+    The conjunction of `hyps => leaf` over all leaves is equivalent to the goal."""
+    if budget is None:
+        budget = [96]
+    g = goal
+    if z3.is_and(g) and budget[0] > 0:
+        for ch in g.children():
+            yield from decompose(ch, hyps, budget)
+        return
+    if z3.is_quantifier(g) and g.is_forall() and budget[0] > 0:
+        n = g.num_vars()
+        consts = [z3.Const(f'gsk!{g.var_name(i)}!{g.get_id()}', g.var_sort(i)) for i in range(n)]
+        body = z3.substitute_vars(g.body(), *reversed(consts))
+        yield from decompose(body, hyps, budget)
+        return
+    if z3.is_implies(g) and budget[0] > 0:
+        yield from decompose(g.arg(1), hyps + (g.arg(0),), budget)
+        return
+    if z3.is_or(g) and budget[0] > 0:
+        ch = g.children()
+        big = [i for i, c in enumerate(ch) if z3.is_and(c) or (z3.is_quantifier(c) and c.is_forall())]
+        if len(big) == 1:
+            i = big[0]
+            yield from decompose(ch[i], hyps + tuple(z3.Not(c) for j, c in enumerate(ch) if j != i), budget)
+            return
+    budget[0] -= 1
+    yield hyps, g
+
+
+def _solve_formula(f, timeout_ms, fallback, name):
+    """-> (status, backend, model, reason)"""
+    if _has_quantifier(f):
+        # quantified query: E-matching only first (no model-based instantiation) - proofs by
+        # instantiation are found in milliseconds this way; only its `unsat` answer is used
+        s2 = z3.Solver()
+        s2.set('timeout', min(timeout_ms, 4000))
+        s2.set('auto_config', False)
+        s2.set('mbqi', False)
+        s2.add(f)
+        if s2.check() == z3.unsat:
+            return 'discharged', 'z3-5.1(py, e-matching only)', None, ''
     s = z3.Solver()
     s.set('timeout', timeout_ms)
-    f = ob.formula()
     s.add(f)
     r = s.check()
-    ob.backend = 'z3-5.1(py)'
     if r == z3.unsat:
-        ob.status = 'discharged'
-    elif r == z3.sat:
-        ob.status = 'refuted'
-        ob.model = s.model()
+        return 'discharged', 'z3-5.1(py)', None, ''
+    if r == z3.sat:
+        return 'refuted', 'z3-5.1(py)', s.model(), ''
+    reason = s.reason_unknown()
+    if _os.environ.get('PYVC_DEBUG_EM'):
+        for lbl, ff in (('same', f), ('reparsed', z3.And(z3.parse_smt2_string(s.to_smt2())))):
+            s3 = z3.Solver(); s3.set('timeout', 8000); s3.set('auto_config', False); s3.set('mbqi', False)
+            s3.add(ff)
+            t1 = time.time(); r3 = s3.check()
+            print('DEBUG_EM', name[-40:], lbl, r3, round(time.time() - t1, 2), s3.reason_unknown() if r3 == z3.unknown else '')
+    if _os.environ.get('PYVC_DUMP'):
+        import re as _re
+        with open(_os.path.join(_os.environ['PYVC_DUMP'], _re.sub(r'[^A-Za-z0-9_.-]', '_', name)[-80:] + f'.{abs(hash(f)) % 10000}.smt2'), 'w') as fh:
+            fh.write(s.to_smt2())
+    if fallback:
+        smt2 = s.to_smt2()
+        for bname, cmd in (('cvc5-1.0.3', ['/usr/bin/cvc5', '--lang=smt2', f'--tlimit={timeout_ms}']),
+                           ('z3-4.8.12', ['/usr/bin/z3', f'-T:{max(1, timeout_ms // 1000)}', '-smt2'])):
+            res = run_cli(cmd, smt2, timeout_ms)
+            if res == 'unsat':
+                return 'discharged', bname, None, ''
+    return 'undecided', 'z3-5.1(py)', None, reason
+
+
+def solve(ob, timeout_ms=10000, fallback=True):
+    """Discharge one obligation.  unsat -> discharged; sat -> refuted (model kept);
+    unknown -> try the CLI back ends, else undecided.  Quantified obligations are first tried
+    whole; if that does not succeed the goal is decomposed (conjuncts, skolemised universals) and
+    every leaf has to be discharged."""
+    t0 = time.time()
+    pc, goal = resolve_ites(ob.pc, ob.goal)
+    f = z3.And(*pc, z3.Not(goal)) if pc else z3.Not(goal)
+    quant = _has_quantifier(f)
+    if quant and (z3.is_and(goal) or z3.is_quantifier(goal)):
+        leaves = list(decompose(goal))
     else:
-        ob.status = 'undecided'
-        ob.reason = s.reason_unknown()
-        if fallback:
-            smt2 = s.to_smt2()
-            for name, cmd in (('cvc5-1.0.3', ['/usr/bin/cvc5', '--lang=smt2', f'--tlimit={timeout_ms}']),
-                              ('z3-4.8.12', ['/usr/bin/z3', f'-T:{max(1, timeout_ms // 1000)}', '-smt2'])):
-                res = run_cli(cmd, smt2, timeout_ms)
-                if res == 'unsat':
-                    ob.status = 'discharged'
-                    ob.backend = name
-                    break
+        leaves = [((), goal)]
+    if len(leaves) == 1:
+        ob.status, ob.backend, ob.model, ob.reason = _solve_formula(f, timeout_ms, fallback, ob.name)
+    else:
+        backends = set()
+        ob.status = 'discharged'
+        for hyps, leaf in leaves:
+            lf = z3.And(*pc, *hyps, z3.Not(leaf))
+            st, be, model, reason = _solve_formula(lf, timeout_ms, fallback, ob.name)
+            backends.add(be)
+            if st != 'discharged':
+                ob.status, ob.model, ob.reason = st, model, reason
+                break
+        ob.backend = '+'.join(sorted(backends))
+        ob.meta = dict(ob.meta or {}, leaves=len(leaves))
+        if ob.status == 'undecided':
+            # a counter-model of the undivided obligation is still a refutation
+            sw = z3.Solver()
+            sw.set('timeout', timeout_ms)
+            sw.add(f)
+            if sw.check() == z3.sat:
+                ob.status, ob.model, ob.reason = 'refuted', sw.model(), ''
     ob.time_s = time.time() - t0
     return ob
+
+
+def _has_quantifier(f):
+    return has_quantifier(f)
 
 
 def run_cli(cmd, smt2, timeout_ms):
